@@ -1,24 +1,25 @@
-"""C36 Front-end types agree with the IR it emits - typing-environment and child-registration consistency.
+"""C36 Front-end types agree with the IR it emits - the IR that is sent is the IR that was typed.
 
-For every IR class (value, table, matrix and block-matrix IR; MRO resolved) the checker extracts from the syntax tree
-  * the child list the constructor registers with `super().__init__(...)`,
-  * every call in `_compute_type` that types a registered child, with the *names* of the environments it passes
-    (symbolic evaluation of `_env_bind(env, self.bindings(K))`, `{**env, self.x: t}`, `child.typ.row_env()` ...),
-  * the binder metadata of that child position (the same evaluator as C35),
-  * how `copy` rebuilds the node (used by IR.map_ir / ir.subst, i.e. MatrixTable.aggregate_rows: the rebuilt IR is what is
-    sent, the type reported is the one computed before).
-and decides
-  R1  a child is typed under the parent's environment extended with exactly the names the node binds for that child
-      (eval and agg/scan environments; relational nodes: the env method used for typing is within the bound env)
-  R2  a child the node evaluates in the aggregation/scan context is typed in `agg_env` with no aggregation env, every other
-      child is not
-  R3  a typing call passes (env, agg_env, deep_typecheck) or (deep_typecheck) with the flag in the flag position
-  R4  the env methods of ttable / tmatrix return the same keys with and without default_value, and global < row/col < entry
-  R5  `copy` rebuilds the same class and puts its k-th argument back at child position k
-  R6  `copy` accepts exactly the registered children and calls the constructor with an argument list it accepts
-Children that `_compute_type` never types are listed as INFO only: with deep_typecheck=False (the only mode in-repo callers
-use) a child's type is computed lazily by `.typ`, so this is lost checking, not a wrong type.
-Does not decide: the typing rules themselves (return types), `_eq`, `_handle_randomness`, literal typing (C32).
+The type an Expression reports is computed on the IR node it was built with.  Before sending, the front end may rebuild that IR:
+`ir.subst` / `IR.map_ir` (MatrixTable.aggregate_rows, matrixtable.py) call `node.copy(*new_children)` on every node.  If `copy`
+silently builds a different node (another class, children permuted, a rewritten child dropped, a child group cut), the IR that is
+sent no longer has the type (or meaning) the expression reported.  For every value-IR class (MRO resolved) the checker extracts
+the child list the constructor registers with `super().__init__(...)`, binds the constructor call(s) in `copy` to the constructor
+signature and follows each argument of `copy` (parameters, `*args` slices, zip comprehensions) to the child position it ends in:
+
+  R5  `copy` rebuilds the same class (or a base class of it) and puts its k-th argument back at child position k
+      - armed only for instances where the rebuilt node is actually constructed: if `copy` cannot be called with the registered
+        children, or the constructor's own @typecheck_method is certain to reject the misplaced argument, the front end raises
+        before anything is sent and the instance is printed as a diagnostic (INFO), not a violation.
+
+Diagnostics (INFO, never violations - see _Diag):
+  R1-R3  environments / flag passed by `_compute_type` to each child (consulted only under deep_typecheck=True, which nothing in
+         the repository enables: grep over *.py, *.cfg, *.toml, *.ini, *.yaml, *.sh finds no use outside hail/ir itself)
+  R4     ttable/tmatrix env methods: the typed branch is read only by those environments
+  R6     copy arity / constructor signature mismatches (map_ir raises TypeError)
+  children that `_compute_type` never types (typed lazily by `.typ`)
+Does not decide: the typing rules themselves (return types), `_eq`, `_handle_randomness`, whether copy restores non-child
+attributes, literal typing (C32).
 """
 from __future__ import annotations
 
@@ -31,13 +32,14 @@ from engines.common import AnalysisError, Ctx
 
 META = dict(
     category='other',
-    text='Sibling-agreement check over the IR class table: for each of the ~170 _compute_type methods the environments passed to each child are '
-         'evaluated symbolically and compared with the binder metadata for that child position and with the context-switch metadata; copy() is '
-         'checked against the registered child list. Necessary conditions for the front-end type checker to type the IR that is actually '
-         'sent; the typing rules themselves are not decided, hence "other".',
-    note='Trusted: CPython ast; engines/irclasses.py. Environments only matter when compute_type runs with deep_typecheck=True; no in-repo caller '
-         'enables it, findings of R1-R3 are therefore latent (stated in each demonstration). Not decided: return types, _eq, _handle_randomness.',
-    technique='static analysis: class table + symbolic evaluation of environment expressions + constructor/copy signature binding',
+    text='Class-table check of the rebuild path (IR.map_ir / ir.subst -> copy) for all value-IR classes: constructor child layouts and the '
+         'constructor calls inside copy are bound symbolically and every copy argument is followed to the child position it ends in. A necessary '
+         'condition for "the IR sent is the IR whose type was reported"; the typing rules themselves are not decided, hence "other".',
+    note='Trusted: CPython ast; engines/irclasses.py. Environment handling in _compute_type (design rules "typed exactly once under '
+         '_env_bind(env, self.bindings(i))") is analysed but only reported as INFO: IR.compute_type consults env only when deep_typecheck=True and no '
+         'in-repo caller, test, flag or environment variable enables it, so those clauses cannot affect behaviour. Likewise copy defects that make '
+         'map_ir raise are INFO. Not decided: return types, _eq, _handle_randomness, non-child attributes in copy.',
+    technique='static analysis: class table + constructor/copy signature binding + symbolic evaluation of environment expressions (diagnostics)',
     design_ref='DESIGN.md §3 C36',
 )
 
@@ -418,7 +420,67 @@ def _child_kinds(t: ic.Table, cls: ic.Cls) -> Dict[str, str]:
     return out
 
 
+KINDS = ('IR', 'TableIR', 'MatrixIR', 'BlockMatrixIR')
+
+
+def _declared(fn: pf.FuncDef) -> Dict[str, Tuple[str, Set[str]]]:
+    """parameter -> (shape, kinds) from @typecheck_method(...): shape 'scalar' for K / nullable(K), 'seq' for sequenceof(..)/tupleof(..)."""
+    out: Dict[str, Tuple[str, Set[str]]] = {}
+    for dec in fn.decorator_list:
+        if isinstance(dec, ast.Call) and pf.dotted(dec.func) in ('typecheck_method', 'typecheck'):
+            for kw in dec.keywords:
+                if kw.arg is None:
+                    continue
+                v = kw.value
+                kinds = {n.id for n in ast.walk(v) if isinstance(n, ast.Name) and n.id in KINDS}
+                if isinstance(v, ast.Name):
+                    shape = 'scalar'
+                elif isinstance(v, ast.Call) and pf.dotted(v.func) == 'nullable' and len(v.args) == 1 and isinstance(v.args[0], ast.Name):
+                    shape = 'scalar'
+                elif isinstance(v, ast.Call) and pf.dotted(v.func) in ('sequenceof', 'tupleof'):
+                    shape = 'seq'
+                else:
+                    shape = 'other'
+                out[kw.arg] = (shape, kinds)
+    return out
+
+
+def _typecheck_rejects(t: ic.Table, cls: ic.Cls, dcls: ic.Cls, bound: Dict[str, ast.expr], view, lays: List[ic.Layout]) -> List[str]:
+    """Reasons why the constructor call in copy is certain to be rejected by the constructor's @typecheck_method
+    (sequence passed where a single node is declared or vice versa; a child of one IR family passed where another is declared)."""
+    dctor = _ctor(t, dcls)
+    decl = _declared(dctor)
+    own = _declared(_ctor(t, cls))
+    out: List[str] = []
+    for prm, e in bound.items():
+        if prm not in decl:
+            continue
+        shape, kinds = decl[prm]
+        v = view(e)
+        if isinstance(e, (ast.ListComp, ast.List, ast.Tuple, ast.GeneratorExp)) or (v is not None and v.kind in ('all', 'init', 'rest', 'group')):
+            arg_shape = 'seq'
+        elif v is not None and v.kind in ('param', 'index', 'last'):
+            arg_shape = 'scalar'
+        else:
+            continue
+        if kinds and shape in ('scalar', 'seq') and arg_shape != shape:
+            out.append(f'{dcls.name}.__init__ declares `{prm}` as a {"single node" if shape == "scalar" else "sequence"} ({"/".join(sorted(kinds))}) but copy passes '
+                       f'`{pf.nsrc(e)[:60]}`, a {"sequence" if arg_shape == "seq" else "single node"}: typecheck_method raises TypeError')
+            continue
+        # family of the child that is passed
+        if v is not None and v.kind in ('param', 'index') and shape == 'scalar' and len(kinds) == 1:
+            j = v.arg
+            for lay in lays:
+                if lay.n_fixed() is not None and j < len(lay.segs):
+                    src = own.get(lay.segs[j].name)
+                    if src and len(src[1]) == 1 and src[1] != kinds:
+                        out.append(f'{cls.name} registers child #{j} as {next(iter(src[1]))} but {dcls.name}.__init__ declares `{prm}` as {next(iter(kinds))}: '
+                                   f'typecheck_method raises TypeError')
+    return out
+
+
 def check_copy(ctx: Ctx, t: ic.Table) -> None:
+    d = _Diag(ctx)
     for cls in t.ir_classes():
         if not cls.is_a('IR'):
             continue
@@ -459,13 +521,16 @@ def check_copy(ctx: Ctx, t: ic.Table) -> None:
             problems += [f'`{pf.nsrc(call)[:90]}` {p} -> TypeError' for p in probs]
             bound_all.append((dcls, call, b, extra))
         if problems:
-            ctx.bad('R6', cons, f'{cls.name}.copy ' + problems[0] + (f' (+{len(problems) - 1} more)' if len(problems) > 1 else ''), owner.mod.path, fn.lineno)
+            d.bad('R6', cons, f'{cls.name}.copy ' + problems[0] + (f' (+{len(problems) - 1} more)' if len(problems) > 1 else '') +
+                  ' [map_ir/subst raises before any IR is sent]', owner.mod.path, fn.lineno)
             continue  # placement (R5) is moot when copy cannot be executed with the registered children
-        ctx.ok('R6', cons, {'params': params, 'vararg': var, 'layouts': [repr(l) for l in lays]})
+        d.ok('R6', cons)
         # ---- R5: class and placement ------------------------------------------------------------------------------
         problems = []
         notes = []
+        raises: List[str] = []
         for dcls, call, b, extra in bound_all:
+            raises += _typecheck_rejects(t, cls, dcls, b, view, lays)
             if dcls is not cls and not (dcls in cls.mro and dcls.name not in ic.ROOTS):
                 problems.append(f'returns a {dcls.name}, which is neither {cls.name} nor one of its base classes: the rebuilt node has a different type than the one reported')
                 continue
@@ -539,23 +604,23 @@ def check_copy(ctx: Ctx, t: ic.Table) -> None:
                                 raise AnalysisError(f'{where}: child `{seg.name}` in the middle of a variable-length layout {dlay}')
                             if not ok:
                                 problems.append(f'child `{seg.name}` (#{idx}) is rebuilt from `{v}` of the arguments, expected {"the last" if idx else "the first"} argument')
-        if problems:
+        if problems and raises:
+            # the constructor's own @typecheck_method rejects the misplaced argument: map_ir/subst raises, nothing different is sent
+            d.bad('R5', cons, f'{cls.name}.copy: ' + problems[0] + (f' (+{len(problems) - 1} more)' if len(problems) > 1 else '') +
+                  f' [never sent: {raises[0]}]', owner.mod.path, fn.lineno)
+        elif problems:
             ctx.bad('R5', cons, f'{cls.name}.copy: ' + problems[0] + (f' (+{len(problems) - 1} more)' if len(problems) > 1 else ''), owner.mod.path, fn.lineno)
         else:
             ctx.ok('R5', cons, {'returns': sorted({d.name for d, _, _, _ in bound_all}), 'notes': notes})
         for n in notes:
             ctx.info(f'{cls.name}.copy: {n}')
+    d.finish('copy')
 
 
 def run(ctx: Ctx) -> None:
-    ctx.explanation = ('Symbolic evaluation of the environments each _compute_type passes to each registered child, compared with the binder and '
-                       'context-switch metadata of that child position; constructor/copy signature binding for the rebuild path used by map_ir/subst.')
-    ctx.rule('R1', 'each child is typed under the parent environment extended with exactly the names the node binds for that child', 150)
-    ctx.rule('R2', 'children evaluated in the agg/scan context are typed in agg_env (and only those)', 130)
-    ctx.rule('R3', 'typing calls pass (env, agg_env, deep_typecheck) / (deep_typecheck) with the flag in the flag position', 220)
-    ctx.rule('R4', 'ttable/tmatrix env methods: same keys with and without default_value; global within row/col within entry', 10)
-    ctx.rule('R5', 'copy rebuilds the same class with argument k back at child position k', 100)
-    ctx.rule('R6', 'copy accepts exactly the registered children and calls the constructor with an argument list it accepts', 100)
+    ctx.explanation = ('Constructor/copy signature binding for the rebuild path used by map_ir/subst: every copy argument is followed to the child '
+                       'position it is put back at. Environment handling of _compute_type is analysed for diagnostics only (deep_typecheck-only).')
+    ctx.rule('R5', 'copy rebuilds the same class with argument k back at child position k (instances where the rebuilt IR is sent without an exception)', 95)
     ctx.assume('IR.compute_type(env, agg_env, deep_typecheck) consults env only when deep_typecheck is true (Ref._compute_type); R1-R3 are about that mode')
     ctx.assume('IR.map_ir passes all children positionally to copy and replaces only value-IR children (base_ir.IR.map_ir)')
     t = ic.load_table()
